@@ -12,6 +12,7 @@
 EXTENDS Inference, IOUtils
 
 CONSTANTS TOL,          \* tolerance on w256 quantities (units of ln2/256)
+          HB2,          \* the same for the N2 keys of the C25 statistical fallback (HB2*HB2 >= 16*N2)
           HB            \* Hoeffding half-width numerator: |sum - N*mean| <= HB * range for N = NStat keys
                         \* HB = least b with b*b >= 16*NStat (ln(2/delta) <= 32, delta = 2.6e-14 per test)
 
@@ -39,7 +40,7 @@ LwDiag(m, o, pr, c, w) ==
   ELSE "other"
 
 ChkSmc(e) ==
-  LET m  == Models[MIdx(e.model)]
+  LET m  == ModelNamed(e.model)
       pr == PropAt(PIdx(e.prop))
       K  == Len(e.parts)
       bad == {j \in 1..K : ~InRange(m, e.parts[j])}
@@ -55,8 +56,8 @@ ChkSmc(e) ==
 
 \* ChangeTarget.run_smc against prev.run_smc with the same key
 ChkChange(e) ==
-  LET m  == Models[MIdx(e.model)]
-      m2 == Models[MIdx(e.model2)]
+  LET m  == ModelNamed(e.model)
+      m2 == ModelNamed(e.model2)
       K  == Len(e.parts)
       wf(j) == InRange(m, e.parts[j]) /\ InRange(m2, e.parts2[j])
       sat(j) == Agrees(e.parts2[j], e.o2)
@@ -75,7 +76,7 @@ ChkChange(e) ==
 
 \* SMCAlgorithm.random_weighted, one key: returned addresses; K = 1: the density estimate is exact
 ChkRw(e) ==
-  LET m  == Models[MIdx(e.model)]
+  LET m  == ModelNamed(e.model)
       pr == PropAt(PIdx(e.prop))
       s  == Overlay(e.vals, e.o)
       all == \A j \in 1..NS(m) : e.o[j] = Minus1 => e.present[j] = 1
@@ -92,7 +93,7 @@ CellOf(e, s, n) == LET hit == {k \in 1..Len(e.cells) : SubSeq(e.cells[k], 1, n) 
                    IN  IF hit = {} THEN <<0, 0>>
                        ELSE LET k == CHOOSE k \in hit : TRUE IN <<e.cells[k][n + 1], e.cells[k][n + 2]>>
 ChkRwStat(e) ==
-  LET m  == Models[MIdx(e.model)]
+  LET m  == ModelNamed(e.model)
       pr == PropAt(PIdx(e.prop))
       n  == NS(m)
       N  == e.N
@@ -115,7 +116,7 @@ ChkRwStat(e) ==
 
 \* run_csmc: the retained particle is the last one and holds the retained choices
 ChkCsmc(e) ==
-  LET m == Models[MIdx(e.model)]
+  LET m == ModelNamed(e.model)
       K == Len(e.parts)
   IN  IF e.status # "ok" THEN {}
       ELSE (IF K >= 1 /\ e.parts[K] = Overlay(e.ret, e.o) THEN {} ELSE {Fl("C26.csmc", "retained_not_last")})
@@ -125,7 +126,7 @@ ChkCsmc(e) ==
 \* C25: Marginal without algorithm: table of w(s,u)
 SelSet(e) == {j \in 1..Len(e.sel) : e.sel[j] = 1}
 ChkMarg(e) ==
-  LET m == Models[MIdx(e.model)]
+  LET m == ModelNamed(e.model)
       n == NS(m)
       S == SelSet(e)
       cellc(k) == SubSeq(e.cells[k], 1, n)
@@ -151,7 +152,14 @@ ChkMarg(e) ==
       (IF e.consistent = 0 /\ e.retok = 0 THEN {}      \* no table: the returned choices are already wrong (C25.sel)
        ELSE IF e.consistent = 0 THEN {Fl("MACHINERY", "the sample of a key depends on the selection: no table w(s,u)")}
        ELSE IF ~wellformed THEN {Fl("C25.sel", "value_out_of_support")}
-       ELSE IF ~func THEN {Fl("MACHINERY", "weight is not a function of the full sample")}
+       ELSE IF ~func THEN
+         \* randomised weight: E[2^-w ; S = s] = 1 by Hoeffding over N2 keys, range of 2^-w from the model
+         (IF HB2 * HB2 < 16 * e.N2 THEN {Fl("MACHINERY", "HB2 too small for N2")}
+          ELSE {Fl("C25.unbiased", "randomised_weight_E[2^-w;S=s]#1") : s \in {s \in SelCells(m, S) :
+                 LET hit == {k \in 1..Len(e.stat) : SubSeq(e.stat[k], 1, n) = s}
+                     sum8 == IF hit = {} THEN 0 ELSE e.stat[CHOOSE k \in hit : TRUE][n + 2]
+                     rng == RCeil(RMaxOver({c \in Asg(m) : Extends(c, s)}, LAMBDA c : Pow2(0 - MW(m, S, c))))
+                 IN  Abs(sum8 - e.N2 * 256) > HB2 * rng * 256 + e.N2}})
        ELSE IF Asg(m) \ present # {} THEN {Fl("C25.unbiased", "cell_never_sampled")}
        ELSE
          {Fl("C25.unbiased", diag) : s \in {s \in SelCells(m, S) :
@@ -176,7 +184,7 @@ MargAlgRange(m, S, s, o0) ==
   RCeil(RMaxOver({c \in Asg(m) : Extends(c, s)},
                  LAMBDA c : RDiv(Pow2(QLP(m, o0, NoProp, Overlay(c, o0))), Pj(m, c))))
 ChkMargAlg(e) ==
-  LET m == Models[MIdx(e.model)]
+  LET m == ModelNamed(e.model)
       n == NS(m)
       S == SelSet(e)
       N == e.N
@@ -191,32 +199,46 @@ ChkMargAlg(e) ==
 
 ---------------------------------------------------------------------------
 \* C27: Rejuvenate
+\* cells: c (start choices), d (choices of the new trace), wmin, wmax, count, smin, smax (score of the new trace)
 ChkRejuv(e) ==
-  LET m == Models[MIdx(e.model)]
+  LET m  == ModelNamed(e.model)
+      m2 == ModelNamed(e.model2)          \* model after the edit (= m unless the arguments change)
       n == NS(m)
+      vec == e.vec = 1
       KS == 1..Len(e.cells)
       cc(k) == SubSeq(e.cells[k], 1, n)
       dd(k) == SubSeq(e.cells[k], n + 1, 2 * n)
       lo(k) == e.cells[k][2 * n + 1]
       hi(k) == e.cells[k][2 * n + 2]
+      slo(k) == e.cells[k][2 * n + 4]
+      shi(k) == e.cells[k][2 * n + 5]
       wf(k) == InRange(m, cc(k)) /\ InRange(m, dd(k))
-      want(k) == 256 * MHW(m, e.mh, e.at, e.dep, cc(k), dd(k))
-      old(k)  == 256 * MHWOldArgs(m, e.mh, e.at, e.dep, cc(k), dd(k))
-      sign(k) == 256 * (JointLP(m, dd(k)) - JointLP(m, cc(k))
-                        - MHq(e.mh, e.at, e.dep, dd(k), cc(k)[e.at]) + MHq(e.mh, e.at, e.dep, cc(k), dd(k)[e.at]))
+      qf(k) == IF vec THEN MHqV(e.mh, VecAt, cc(k), dd(k)) ELSE MHq(e.mh, e.at, e.dep, cc(k), dd(k)[e.at])   \* forward
+      qb(k) == IF vec THEN MHqV(e.mh, VecAt, dd(k), cc(k)) ELSE MHq(e.mh, e.at, e.dep, dd(k), cc(k)[e.at])   \* backward
+      want(k) == 256 * (JointLP(m2, dd(k)) + qb(k) - JointLP(m, cc(k)) - qf(k))
+      old(k)  == IF vec THEN want(k) + 1 ELSE 256 * MHWOldArgs(m, e.mh, e.at, e.dep, cc(k), dd(k))
+      sign(k) == 256 * (JointLP(m2, dd(k)) - JointLP(m, cc(k)) - qb(k) + qf(k))
+      oldarg(k) == 256 * (JointLP(m, dd(k)) + qb(k) - JointLP(m, cc(k)) - qf(k))       \* p(x') under the OLD arguments
+      all(W(_)) == \A k \in KS : wf(k) /\ hi(k) - lo(k) <= TOL /\ Close(lo(k), W(k))
       good(k) == wf(k) /\ hi(k) - lo(k) <= TOL /\ Close(lo(k), want(k))
       bad == {k \in KS : ~good(k)}
-      diag == IF \A k \in KS : wf(k) /\ hi(k) - lo(k) <= TOL /\ Close(lo(k), old(k)) THEN "backward_args_from_old_choices"
-              ELSE IF \A k \in KS : wf(k) /\ hi(k) - lo(k) <= TOL /\ Close(lo(k), sign(k)) THEN "proposal_terms_sign"
+      diag == IF m2 # m /\ all(oldarg) THEN "scored_under_old_arguments"
+              ELSE IF m2 = m /\ ~vec /\ all(old) THEN "backward_args_from_old_choices"
+              ELSE IF all(sign) THEN "proposal_terms_sign"
               ELSE "other"
       starts == {cc(k) : k \in KS}
+      reach(c) == IF vec THEN {<<dd(k)[1], dd(k)[2]>> : k \in {k \in KS : cc(k) = c}} = (0..2) \X (0..2)
+                  ELSE {dd(k)[e.at] : k \in {k \in KS : cc(k) = c}} = 0..2
   IN  IF e.status # "ok" THEN {Fl("C27.weight", e.status)}
       ELSE
         (IF bad = {} THEN {} ELSE {Fl("C27.weight", diag)})
-        \cup (IF starts = Asg(m) /\ \A c \in starts : {dd(k)[e.at] : k \in {k \in KS : cc(k) = c}} = 0..2 THEN {}
+        \cup (IF starts = Asg(m) /\ \A c \in starts : reach(c) THEN {}
               ELSE {Fl("C27.trace", "proposal_support_not_reached")})
+        \cup (IF e.arg2 = (IF m2.nargs = 0 THEN Minus1 ELSE m2.arg) THEN {}
+              ELSE {Fl("C27.trace", "trace_keeps_old_arguments")})
+        \cup (IF \A k \in KS : wf(k) => (shi(k) - slo(k) <= TOL /\ Close(slo(k), 256 * JointLP(m2, dd(k)))) THEN {}
+              ELSE {Fl("C27.trace", "score_not_the_density_of_the_new_choices_under_the_new_arguments")})
 
----------------------------------------------------------------------------
 Check(e) ==
   CASE e.op = "smc"     -> ChkSmc(e)
     [] e.op = "change"  -> ChkChange(e)
